@@ -402,7 +402,12 @@ def run_driver(run, comp, plan_lines, race=False, timeout=1800, args=(), allow_f
             for ln in f:
                 ln = ln.strip()
                 if ln:
-                    evs.append(json.loads(ln))
+                    try:
+                        evs.append(json.loads(ln))
+                    except ValueError:
+                        if not allow_fail:
+                            raise
+                        break       # the process died while writing this line
     if allow_fail:
         return evs, p.returncode, p.stderr
     return evs
@@ -452,6 +457,9 @@ def validate(run, subdir, module, constants, segments, clauses, plans=None, max_
     # chunking
     if chunk_events is None:
         chunk_events = max(400, sum(len(s) for s in segments) // 8 + 1)
+    # TLC cannot handle behaviours of 65536 or more states once its queue spills to disk: keep every trace file well below that
+    # (validators with silent steps take several states per trace line)
+    chunk_events = min(chunk_events, 15000)
     chunks, cur, n = [], [], 0
     for i, s in enumerate(segments):
         if cur and n + len(s) > chunk_events:
